@@ -22,6 +22,9 @@ type c18Case struct {
 	Size  int    `json:"size"`
 	Base  int    `json:"base_size"`       // smallest size of the ladder with the same response fingerprint (0: none)
 	Route int    `json:"route,omitempty"` // construction route (suite.go)
+	// Preset: the response header map already carries one value for Vary and for every Access-Control-* response
+	// header when the middleware runs (an outer layer put them there)
+	Preset bool `json:"preset_response_headers,omitempty"`
 }
 
 const c18MaxAllocs = 8
@@ -129,13 +132,36 @@ type c18Cell struct {
 	finger string
 }
 
-func c18Measure(h http.Handler, r vlib.Req) c18Cell {
+var c18PresetNames = []string{"Vary", "Access-Control-Allow-Origin", "Access-Control-Allow-Credentials", "Access-Control-Allow-Methods", "Access-Control-Allow-Headers",
+	"Access-Control-Allow-Private-Network", "Access-Control-Max-Age", "Access-Control-Expose-Headers", "X-Outer"}
+
+func c18Measure(h http.Handler, r vlib.Req, preset bool) c18Cell {
 	req := r.HTTP()
 	rec := vlib.NewRec()
+	outer := make([][]string, len(c18PresetNames))
+	for i := range outer {
+		outer[i] = []string{"outer"}
+	}
+	install := func() {
+		if preset {
+			for i, n := range c18PresetNames {
+				rec.H[n] = outer[i][:1:1]
+			}
+		}
+	}
+	install()
 	h.ServeHTTP(rec, req)
 	names := make([]string, 0, len(rec.H))
 	for k, v := range rec.H {
 		if len(v) > 0 {
+			if preset {
+				// which pre-set headers the middleware left alone, replaced or added to is part of the outcome
+				who := "set-by-middleware"
+				if v[0] == "outer" {
+					who = "outer"
+				}
+				k = fmt.Sprintf("%s(%d%s, first %s)", k, min(len(v), 2), map[bool]string{false: "", true: "+"}[len(v) >= 2], who)
+			}
 			names = append(names, k)
 		}
 	}
@@ -143,6 +169,7 @@ func c18Measure(h http.Handler, r vlib.Req) c18Cell {
 	f := fmt.Sprintf("%d %s", rec.Status, strings.Join(names, ","))
 	a := testing.AllocsPerRun(10, func() {
 		rec.Reset()
+		install()
 		h.ServeHTTP(rec, req)
 	})
 	return c18Cell{a, f}
@@ -161,12 +188,12 @@ func c18Judge(k c18Case) *vlib.Failure {
 	if err != nil {
 		return vlib.Failf("configuration of the C18 alphabet rejected: %v", err)
 	}
-	cell := c18Measure(h, c18Request(k.Kind, k.Field, k.Size))
+	cell := c18Measure(h, c18Request(k.Kind, k.Field, k.Size), k.Preset)
 	if cell.allocs > c18MaxAllocs {
 		return vlib.Failf("%v allocations per request (bound %d) for %s %s size %d (response %s)", cell.allocs, c18MaxAllocs, k.Kind, k.Field, k.Size, cell.finger)
 	}
 	if k.Base > 0 && k.Base != k.Size {
-		base := c18Measure(h, c18Request(k.Kind, k.Field, k.Base))
+		base := c18Measure(h, c18Request(k.Kind, k.Field, k.Base), k.Preset)
 		if base.finger == cell.finger && cell.allocs > base.allocs {
 			return vlib.Failf("allocations grow with %s: %v at size %d, %v at size %d (same response %s)", k.Field, base.allocs, k.Base, cell.allocs, k.Size, cell.finger)
 		}
@@ -225,7 +252,9 @@ func checkC18(c *vlib.Ctx) (string, string) {
 					ck.Report(c18Case{Cfg: l, Route: route}, vlib.Failf("configuration of the C18 alphabet rejected: %v", err))
 					return levelMC, rule
 				}
-				for _, kind := range []string{"preflight", "actual", "noncors"} {
+				for _, kp := range []string{"preflight", "actual", "noncors", "preflight+preset", "actual+preset"} {
+					kind, presetSfx, _ := strings.Cut(kp, "+")
+					preset := presetSfx != ""
 					for _, f := range fields {
 						if kind != "preflight" && !strings.HasPrefix(f.name, "origin-l") && f.name != "acrh-lines" {
 							continue // ACRM/ACRH are only looked at on preflights; keep two fields as a control
@@ -233,7 +262,7 @@ func checkC18(c *vlib.Ctx) (string, string) {
 						baseOf := map[string]int{} // fingerprint -> smallest size
 						baseAllocs := map[string]float64{}
 						for _, size := range f.ladder {
-							cell := c18Measure(h, c18Request(kind, f.name, size))
+							cell := c18Measure(h, c18Request(kind, f.name, size), preset)
 							c.Evaluations.Add(1)
 							c.States.Add(1)
 							c.Transitions.Add(11)
@@ -247,7 +276,7 @@ func checkC18(c *vlib.Ctx) (string, string) {
 								baseOf[cell.finger], baseAllocs[cell.finger] = size, cell.allocs
 								b = 0
 							}
-							k := c18Case{l, dbg, kind, f.name, size, b, route}
+							k := c18Case{l, dbg, kind, f.name, size, b, route, preset}
 							if cell.allocs > c18MaxAllocs || seen && cell.allocs > baseAllocs[cell.finger] {
 								if jf := vlib.Guard(func() *vlib.Failure { return c18Judge(k) }); jf != nil {
 									ck.Report(k, jf)
